@@ -246,12 +246,18 @@ def run_replay_script(script, timeout=120):
     The script must exit 1 and print 'REPRODUCED' when the violation shows on the real code, exit 0 otherwise."""
     from .source import REPO
 
-    env = dict(os.environ, PYTHONPATH=REPO)
+    import shutil
+    import tempfile
+
+    scratch = tempfile.mkdtemp(prefix="replay")  # scratch files of the script go here and are removed afterwards
+    env = dict(os.environ, PYTHONPATH=REPO, TMPDIR=scratch)
     try:
         out = subprocess.run([VENV_PY, "-c", script], capture_output=True, text=True, timeout=timeout, env=env, cwd="/")
         return {"reproduced": out.returncode == 1 and "REPRODUCED" in out.stdout, "exit": out.returncode, "stdout": out.stdout[-3000:], "stderr": out.stderr[-2000:]}
     except subprocess.TimeoutExpired:
         return {"reproduced": False, "exit": None, "stdout": "", "stderr": "timeout"}
+    finally:
+        shutil.rmtree(scratch, ignore_errors=True)
 
 
 def main_wrapper(pid, level, run):
